@@ -3397,7 +3397,8 @@ def _deliteral(value: Value) -> Value:
     value = unannotate(value)
     if isinstance(value, KnownValue):
         value = TypedValue(type(value.val))
-    if isinstance(value, SequenceValue):
+    if isinstance(value, GenericValue):
+        # list[int] and list[str] share the empty list: compare generics by their class only
         value = TypedValue(value.typ)
     return value
 
